@@ -379,9 +379,63 @@ func genC14Plan(r *zsim.Rng) *sysPlan {
 				seq = append(seq, sysEvent{Kind: "keys", Keys: pick(r, "bspace", "a", "ctrl-u", "end")})
 			}
 		}
+		// … and drags that start on the scrollbar column of a list longer than the window and end anywhere,
+		// also outside the list (prompt side, borders, margins)
+		if r.Bool() {
+			if p.Lines.N < 3*p.Rows {
+				p.Lines.N = 3*p.Rows + r.Intn(200)
+			}
+			c14DropArg(p, "--no-scrollbar")
+			// plain geometry, so that the last column really is the scrollbar
+			for _, o := range []string{"--border", "--padding", "--height", "--preview", "--preview-window", "--margin", "--layout", "--list-border", "--input-border", "--header-border"} {
+				c14DropOpt(p, o)
+			}
+			if r.Bool() {
+				// a margin on the prompt side: rows that belong to no window
+				if r.Bool() {
+					p.Args = append(p.Args, "--margin", "0,0,3,0")
+				} else {
+					p.Args = append(p.Args, "--layout", "reverse", "--margin", "3,0,0,0")
+				}
+			}
+			for i := r.Range(1, 4); i > 0; i-- {
+				x := []int{p.Cols, p.Cols - 1, p.Cols - 2}[r.Intn(3)]
+				if x < 1 {
+					x = 1
+				}
+				y := r.Range(1, maxInt(2, p.Rows-3))
+				b := []byte(fmt.Sprintf("\x1b[<0;%d;%dM", x, y))
+				ry := []int{p.Rows, p.Rows - 1, 1, 2, p.Rows + 1, r.Range(1, p.Rows+1)}[r.Intn(6)]
+				if ry < 1 {
+					ry = 1
+				}
+				straight := r.Bool() // the pointer stays in the scrollbar column all the way
+				for k := r.Intn(4); k > 0; k-- {
+					dx, dy := r.Range(1, p.Cols+1), r.Range(1, p.Rows+2)
+					if straight {
+						dx = x
+						if k == 1 {
+							dy = ry
+						}
+					}
+					b = append(b, []byte(fmt.Sprintf("\x1b[<32;%d;%dM", dx, dy))...)
+				}
+				rx := r.Range(1, p.Cols+1)
+				if straight {
+					rx = x
+				}
+				rel := []byte(fmt.Sprintf("\x1b[<0;%d;%dm", rx, ry))
+				if r.Bool() {
+					// reports arriving one by one
+					seq = append(seq, sysEvent{Kind: "raw", Raw: b, DelayMs: r.Intn(30)}, sysEvent{Kind: "raw", Raw: rel, DelayMs: []int{1, 50, 400}[r.Intn(3)]})
+				} else {
+					seq = append(seq, sysEvent{Kind: "raw", Raw: append(b, rel...), DelayMs: r.Intn(30)})
+				}
+			}
+		}
 		at := 0
-		if len(p.Events) > 0 {
-			at = r.Intn(len(p.Events) + 1)
+		if len(p.Events) > 0 && r.Bool() {
+			at = r.Intn(len(p.Events) + 1) // else: first thing, while the window still has the size the coordinates were chosen for
 		}
 		p.Events = append(p.Events[:at:at], append(seq, p.Events[at:]...)...)
 		c14DropArg(p, "--no-mouse")
@@ -440,6 +494,21 @@ func c14DropArg(p *sysPlan, flag string) {
 		if a != flag {
 			out = append(out, a)
 		}
+	}
+	p.Args = out
+}
+
+// c14DropOpt removes an option together with its value.
+func c14DropOpt(p *sysPlan, name string) {
+	out := p.Args[:0:0]
+	for i := 0; i < len(p.Args); i++ {
+		if p.Args[i] == name {
+			if i+1 < len(p.Args) && !strings.HasPrefix(p.Args[i+1], "--") {
+				i++
+			}
+			continue
+		}
+		out = append(out, p.Args[i])
 	}
 	p.Args = out
 }
